@@ -8,6 +8,7 @@ import PPV.Gen.Idx
 import PPV.Model.AssembleRun
 import PPV.Model.OptionsRun
 import PPV.Model.NewtonRun
+import PPV.Model.ConnectivityRun
 
 open PPV
 
@@ -27,6 +28,8 @@ def handle (line : String) : String :=
     PPV.Model.Options.Run.handle numba fluid (parts.getD 1 "") (parts.getD 2 "")
   | "newton" :: auto :: maxIter :: alpha0 :: _ =>
     PPV.Model.Newton.Run.handle auto maxIter alpha0 (line.trimAscii.toString.splitOn "::")
+  | "conn" :: n :: b :: _ =>
+    PPV.Model.Connectivity.Run.handle n.toNat! b.toNat! (line.trimAscii.toString.splitOn "::")
   | _ => "bad-op"
 
 partial def loop (h : IO.FS.Stream) (out : IO.FS.Stream) : IO Unit := do
